@@ -65,6 +65,19 @@ RULE = ("hist: 5 fixed histories (the deliver / restart / deliver program of fin
         "and 32 MiB), listed through the live object, through a fresh file.New (must be equal), and again after a MarkSeen + delivery + reopen; "
         "the model does not care about byte sizes and runs with compact stand-ins, the rendered listing (recipients' count and FNV, sizes, content "
         "digests) and the oracle carry the real ones. "
+        "size: the mailbox-SIZE dimension of the restart — one mailbox of 1, 2, 15, 16, 17, 50, 100, 101, 128, 130, 300, 1000 messages (thorough also "
+        "31 / 33 / 63 / 65 / 99 / 127 / 129 / 255 / 257 / 1025; cap 0, one case under cap 7), then 1-6 (for n >= 100 sometimes 24-27) removals / seen "
+        "flags through the live object and NO further delivery, then the stop: the listing through the live object, through a fresh file.New (must be "
+        "equal and the ordered map's: removed stay gone, flags kept, every source readable), one more delivery through a fresh object, a fresh listing "
+        "again. The oracle is the ordered map; the Coq model runs next to it for n <= 50 (its per-delivery index re-encoding is quadratic), for larger n "
+        "the model line is the ordered map's. "
+        "upg: the UPGRADE restart — the storage directory the store is opened on was NOT written by the code under test: the driver has its own writer "
+        "of the pinned tree's on-disk format (sha1 fan-out directories, index.gob = gob(name string) + gob(entry) per message, <id>.raw files; "
+        "go/cmd/c10/upg.go, sharing no code with pkg/storage/file), writes the mailboxes of a setup history with it, and then runs an ordinary history "
+        "(list by name, VisitMailboxes with the NAMES, retention scan, deliveries, flags, removals, reopen / restart) whose oracle is the ordered map of "
+        "what the fixture holds. Self-test of the writer on every case: the same setup run through the store under test must produce index files that "
+        "decode to the same name and entries (bytes=1; projected, a clean tree always shows 1 — a store that changes its format shows 0 there and is "
+        "then judged on the history itself: it must still read the old format). 3 fixed + 6 (thorough 300) random cases. "
         "srv: the SERVER, not just the store, is stopped and started again: each incarnation a child process configured through the environment "
         "(file store on one path, INBUCKET_STORAGE_RETENTIONPERIOD 0 = disabled / 24h / 1h, mailbox cap 0/2/3), server.FullAssembly + Services.Start, "
         "mails delivered over the real SMTP port, every mailbox listed through the REST API, cancel + Drain + Join; incarnation 2 only lists, "
@@ -80,19 +93,24 @@ TRUSTED = ["encoding/gob round trip: dec (enc i) = Some i (section hypothesis)",
 ASSUMPTIONS = ["no I/O errors",
                "removed_stay_gone_one_incarnation's hypothesis never_generated holds in the code only if the LOCAL wall clock never shows the same second twice within one process (generatePrefix formats local time: a DST fall-back or a clock step backwards can repeat a second) and fewer than 10000 ids are generated per second", "one operation at a time per mailbox (C09 covers interleavings)",
                "fewer than 10000 deliveries per second per process (the id counter wraps at 10000)"]
+# Where the open finding K-C10-id-reissued-after-restart can surface (always reported as KNOWN-FINDING, never as a violation, and only
+# when the rest of the observation equals the ordered map): the `reissue` corpus case (deterministic, every run), `hist` / `upg` histories
+# with a real restart (X) after a removal / purge / cap eviction, and `srv` cases with a cap (the third incarnation's delivery evicts and
+# may be issued the evicted id within the same second) - timing-dependent there, so a run may or may not show it. `big` has no process
+# restart, `conc` never reports ids (its handles are positions), so neither can.
 NOT_PROVED = ["visit_complete is completeness only: that the walk yields each mailbox AT MOST once is not proved (it needs a no-duplicate-keys invariant of the disk map); the correspondence run compares the walk with the set of non-empty mailboxes",
               "removed_stay_gone_stmt (Proofs/FileDiskWitness.v): the unguarded statement 'a removed id never names a message of the mailbox again' is FALSE in the model and in the code (removed_stay_gone_refuted, open finding K-C10-id-reissued-after-restart); proved instead: removed_stay_gone_partial under never_reissued"]
 
 
 def nontrivial(kind, ins, outs):
-    if kind in ("reissue", "conc", "srv", "big"):
+    if kind in ("reissue", "conc", "srv", "big", "upg", "size"):
         return True
     return kind == "hist" and ("R" in ins[2].split(",") or "X" in ins[2].split(",")) and any(o.startswith("res=") and "k" in o for o in outs)
 
 
 def project(kind, ins, outs):
-    if kind == "hist":
-        return [o for o in outs if not o.startswith("retries=") and not o.startswith("reissued=")]
+    if kind in ("hist", "upg", "srv"):
+        return [o for o in outs if not o.startswith(("retries=", "reissued=", "bytes="))]
     return outs
 
 
